@@ -1,141 +1,351 @@
+//! Deterministic in-memory QUIC transport implementing the `h3::quic` traits ("SimQuic").
+//!
+//! Every stream direction is a byte queue with explicit peer events (deliver bytes, FIN,
+//! RESET, STOP_SENDING), every send side has an explicit write credit, opening streams needs
+//! stream credit, and the connection can be closed by the peer or time out.  Wakers are stored
+//! and woken exactly when the awaited condition changes, so that an executor which only polls
+//! woken tasks can observe lost wake-ups and hangs.
 #![allow(dead_code)]
-//! Minimal deterministic in-memory QUIC transport for h3 (prototype).
 use bytes::{Buf, Bytes};
 use h3::quic::{self, ConnectionErrorIncoming, StreamErrorIncoming, StreamId, WriteBuf};
 use std::cell::RefCell;
 use std::collections::{BTreeMap, VecDeque};
 use std::rc::Rc;
-use std::task::{Context, Poll};
+use std::task::{Context, Poll, Waker};
 
 #[derive(Debug, Clone)]
-pub enum Rx { Chunk(Bytes), Fin, Reset(u64) }
+pub enum Rx {
+    Chunk(Bytes),
+    Fin,
+    Reset(u64),
+}
+
+pub const UNLIMITED: usize = usize::MAX;
 
 #[derive(Default)]
 pub struct Stream {
     pub id: u64,
     // peer -> h3
     pub rx: VecDeque<Rx>,
-    pub rx_done: Option<Rx>,        // sticky Fin/Reset once reached
-    pub stop_sending: Option<u64>,  // h3 asked the peer to stop
+    /// sticky Fin/Reset once reached
+    pub rx_done: Option<Rx>,
+    pub rx_waker: Option<Waker>,
+    /// h3 asked the peer to stop sending (first code, number of calls)
+    pub stop_sending: Option<u64>,
+    pub stop_sending_calls: u32,
     // h3 -> peer
     pub tx: Vec<u8>,
     pub tx_credit: usize,
     pub tx_fin: bool,
     pub tx_reset: Option<u64>,
-    pub peer_stopped: Option<u64>,  // peer sent STOP_SENDING
+    /// peer sent STOP_SENDING
+    pub peer_stopped: Option<u64>,
     pub writing: Option<WriteBuf<Bytes>>,
+    pub tx_waker: Option<Waker>,
+    /// h3 wrote after finishing or resetting the stream
+    pub tx_misuse: bool,
+    /// `send_data` was called while a write was in progress
+    pub tx_overlap: bool,
+    /// sizes accepted by each successful partial write (for evidence)
+    pub accepted: Vec<usize>,
 }
 
 #[derive(Default)]
 pub struct Net {
-    pub streams: BTreeMap<u64, Rc<RefCell<Stream>>>,
+    pub streams: BTreeMap<u64, Stream>,
     pub incoming_uni: VecDeque<u64>,
     pub incoming_bidi: VecDeque<u64>,
+    pub accept_uni_waker: Option<Waker>,
+    pub accept_bidi_waker: Option<Waker>,
     pub uni_credit: usize,
     pub bidi_credit: usize,
+    pub open_wakers: Vec<Waker>,
     pub next_local_uni: u64,
     pub next_local_bidi: u64,
+    /// `close(code, reason)` calls made by h3
     pub closed: Vec<(u64, Vec<u8>)>,
     pub conn_err: Option<ConnectionErrorIncoming>,
     pub default_tx_credit: usize,
     pub server: bool,
+    /// order in which h3 opened its streams
+    pub opened: Vec<u64>,
 }
 pub type NetRef = Rc<RefCell<Net>>;
 
+fn wake(w: &mut Option<Waker>) {
+    if let Some(w) = w.take() {
+        w.wake();
+    }
+}
+
 impl Net {
     pub fn new(server: bool) -> NetRef {
-        Rc::new(RefCell::new(Net { uni_credit: usize::MAX, bidi_credit: usize::MAX, default_tx_credit: usize::MAX, server, ..Default::default() }))
+        Rc::new(RefCell::new(Net {
+            uni_credit: UNLIMITED,
+            bidi_credit: UNLIMITED,
+            default_tx_credit: UNLIMITED,
+            server,
+            ..Default::default()
+        }))
     }
-    fn mk(&mut self, id: u64) -> Rc<RefCell<Stream>> {
-        let s = Rc::new(RefCell::new(Stream { id, tx_credit: self.default_tx_credit, ..Default::default() }));
-        self.streams.insert(id, s.clone());
-        s
+    fn mk(&mut self, id: u64) {
+        let s = Stream { id, tx_credit: self.default_tx_credit, ..Default::default() };
+        self.streams.insert(id, s);
     }
     /// peer opens a stream towards h3
     pub fn peer_open(&mut self, id: u64) {
+        if self.streams.contains_key(&id) {
+            return;
+        }
         self.mk(id);
-        if id & 2 == 0 { self.incoming_bidi.push_back(id) } else { self.incoming_uni.push_back(id) }
+        if id & 2 == 0 {
+            self.incoming_bidi.push_back(id);
+            wake(&mut self.accept_bidi_waker);
+        } else {
+            self.incoming_uni.push_back(id);
+            wake(&mut self.accept_uni_waker);
+        }
     }
-    pub fn peer_send(&mut self, id: u64, ev: Rx) { self.streams[&id].borrow_mut().rx.push_back(ev); }
-    pub fn tx(&self, id: u64) -> Vec<u8> { self.streams[&id].borrow().tx.clone() }
+    pub fn peer_send(&mut self, id: u64, ev: Rx) {
+        if let Some(s) = self.streams.get_mut(&id) {
+            s.rx.push_back(ev);
+            wake(&mut s.rx_waker);
+        }
+    }
+    /// peer sends STOP_SENDING for h3's send side of `id`
+    pub fn peer_stop(&mut self, id: u64, code: u64) {
+        if let Some(s) = self.streams.get_mut(&id) {
+            s.peer_stopped.get_or_insert(code);
+            wake(&mut s.tx_waker);
+        }
+    }
+    pub fn grant_write(&mut self, id: u64, n: usize) {
+        if let Some(s) = self.streams.get_mut(&id) {
+            if s.tx_credit != UNLIMITED {
+                s.tx_credit = s.tx_credit.saturating_add(n);
+            }
+            wake(&mut s.tx_waker);
+        }
+    }
+    pub fn grant_streams(&mut self, uni: usize, bidi: usize) {
+        if self.uni_credit != UNLIMITED {
+            self.uni_credit += uni;
+        }
+        if self.bidi_credit != UNLIMITED {
+            self.bidi_credit += bidi;
+        }
+        for w in self.open_wakers.drain(..) {
+            w.wake();
+        }
+    }
+    /// the peer closes the connection / the connection times out
+    pub fn fail(&mut self, e: ConnectionErrorIncoming) {
+        if self.conn_err.is_some() {
+            return;
+        }
+        self.conn_err = Some(e);
+        wake(&mut self.accept_bidi_waker);
+        wake(&mut self.accept_uni_waker);
+        for w in self.open_wakers.drain(..) {
+            w.wake();
+        }
+        for s in self.streams.values_mut() {
+            wake(&mut s.rx_waker);
+            wake(&mut s.tx_waker);
+        }
+    }
+    pub fn tx(&self, id: u64) -> Vec<u8> {
+        self.streams.get(&id).map(|s| s.tx.clone()).unwrap_or_default()
+    }
 }
 
-pub struct SimConn { pub net: NetRef }
-pub struct SimOpen { pub net: NetRef }
-pub struct SimStream { net: NetRef, s: Rc<RefCell<Stream>> }
+pub struct SimConn {
+    pub net: NetRef,
+}
+#[derive(Clone)]
+pub struct SimOpen {
+    pub net: NetRef,
+}
+pub struct SimStream {
+    net: NetRef,
+    pub id: u64,
+}
 
-fn conn_err(net: &NetRef) -> Option<ConnectionErrorIncoming> { net.borrow().conn_err.clone() }
+fn conn_err(net: &NetRef) -> Option<ConnectionErrorIncoming> {
+    net.borrow().conn_err.clone()
+}
 
-fn open(net: &NetRef, bidi: bool) -> Poll<Result<SimStream, StreamErrorIncoming>> {
-    if let Some(e) = conn_err(net) { return Poll::Ready(Err(StreamErrorIncoming::ConnectionErrorIncoming { connection_error: e })); }
+fn open(net: &NetRef, bidi: bool, cx: &mut Context<'_>) -> Poll<Result<SimStream, StreamErrorIncoming>> {
+    if let Some(e) = conn_err(net) {
+        return Poll::Ready(Err(StreamErrorIncoming::ConnectionErrorIncoming { connection_error: e }));
+    }
     let mut n = net.borrow_mut();
-    let credit = if bidi { &mut n.bidi_credit } else { &mut n.uni_credit };
-    if *credit == 0 { return Poll::Pending; }
-    if *credit != usize::MAX { *credit -= 1; }
+    let credit = if bidi { n.bidi_credit } else { n.uni_credit };
+    if credit == 0 {
+        n.open_wakers.push(cx.waker().clone());
+        return Poll::Pending;
+    }
+    if credit != UNLIMITED {
+        if bidi {
+            n.bidi_credit -= 1
+        } else {
+            n.uni_credit -= 1
+        }
+    }
     let side = if n.server { 1 } else { 0 };
-    let id = if bidi { let i = n.next_local_bidi; n.next_local_bidi += 1; i << 2 | side } else { let i = n.next_local_uni; n.next_local_uni += 1; i << 2 | 2 | side };
-    let s = n.mk(id);
+    let id = if bidi {
+        let i = n.next_local_bidi;
+        n.next_local_bidi += 1;
+        i << 2 | side
+    } else {
+        let i = n.next_local_uni;
+        n.next_local_uni += 1;
+        i << 2 | 2 | side
+    };
+    n.mk(id);
+    n.opened.push(id);
     drop(n);
-    Poll::Ready(Ok(SimStream { net: net.clone(), s }))
+    Poll::Ready(Ok(SimStream { net: net.clone(), id }))
+}
+
+fn do_close(net: &NetRef, code: h3::error::Code, reason: &[u8]) {
+    net.borrow_mut().closed.push((code.value(), reason.to_vec()));
 }
 
 impl quic::OpenStreams<Bytes> for SimConn {
-    type BidiStream = SimStream; type SendStream = SimStream;
-    fn poll_open_bidi(&mut self, _: &mut Context<'_>) -> Poll<Result<SimStream, StreamErrorIncoming>> { open(&self.net, true) }
-    fn poll_open_send(&mut self, _: &mut Context<'_>) -> Poll<Result<SimStream, StreamErrorIncoming>> { open(&self.net, false) }
-    fn close(&mut self, code: h3::error::Code, reason: &[u8]) { self.net.borrow_mut().closed.push((code.value(), reason.to_vec())); }
+    type BidiStream = SimStream;
+    type SendStream = SimStream;
+    fn poll_open_bidi(&mut self, cx: &mut Context<'_>) -> Poll<Result<SimStream, StreamErrorIncoming>> {
+        open(&self.net, true, cx)
+    }
+    fn poll_open_send(&mut self, cx: &mut Context<'_>) -> Poll<Result<SimStream, StreamErrorIncoming>> {
+        open(&self.net, false, cx)
+    }
+    fn close(&mut self, code: h3::error::Code, reason: &[u8]) {
+        do_close(&self.net, code, reason)
+    }
 }
 impl quic::OpenStreams<Bytes> for SimOpen {
-    type BidiStream = SimStream; type SendStream = SimStream;
-    fn poll_open_bidi(&mut self, _: &mut Context<'_>) -> Poll<Result<SimStream, StreamErrorIncoming>> { open(&self.net, true) }
-    fn poll_open_send(&mut self, _: &mut Context<'_>) -> Poll<Result<SimStream, StreamErrorIncoming>> { open(&self.net, false) }
-    fn close(&mut self, code: h3::error::Code, reason: &[u8]) { self.net.borrow_mut().closed.push((code.value(), reason.to_vec())); }
+    type BidiStream = SimStream;
+    type SendStream = SimStream;
+    fn poll_open_bidi(&mut self, cx: &mut Context<'_>) -> Poll<Result<SimStream, StreamErrorIncoming>> {
+        open(&self.net, true, cx)
+    }
+    fn poll_open_send(&mut self, cx: &mut Context<'_>) -> Poll<Result<SimStream, StreamErrorIncoming>> {
+        open(&self.net, false, cx)
+    }
+    fn close(&mut self, code: h3::error::Code, reason: &[u8]) {
+        do_close(&self.net, code, reason)
+    }
 }
 impl quic::Connection<Bytes> for SimConn {
-    type RecvStream = SimStream; type OpenStreams = SimOpen;
-    fn poll_accept_recv(&mut self, _: &mut Context<'_>) -> Poll<Result<SimStream, ConnectionErrorIncoming>> {
-        if let Some(e) = conn_err(&self.net) { return Poll::Ready(Err(e)); }
+    type RecvStream = SimStream;
+    type OpenStreams = SimOpen;
+    fn poll_accept_recv(&mut self, cx: &mut Context<'_>) -> Poll<Result<SimStream, ConnectionErrorIncoming>> {
+        if let Some(e) = conn_err(&self.net) {
+            return Poll::Ready(Err(e));
+        }
         let mut n = self.net.borrow_mut();
-        match n.incoming_uni.pop_front() { Some(id) => { let s = n.streams[&id].clone(); drop(n); Poll::Ready(Ok(SimStream { net: self.net.clone(), s })) } None => Poll::Pending }
+        match n.incoming_uni.pop_front() {
+            Some(id) => {
+                drop(n);
+                Poll::Ready(Ok(SimStream { net: self.net.clone(), id }))
+            }
+            None => {
+                n.accept_uni_waker = Some(cx.waker().clone());
+                Poll::Pending
+            }
+        }
     }
-    fn poll_accept_bidi(&mut self, _: &mut Context<'_>) -> Poll<Result<SimStream, ConnectionErrorIncoming>> {
-        if let Some(e) = conn_err(&self.net) { return Poll::Ready(Err(e)); }
+    fn poll_accept_bidi(&mut self, cx: &mut Context<'_>) -> Poll<Result<SimStream, ConnectionErrorIncoming>> {
+        if let Some(e) = conn_err(&self.net) {
+            return Poll::Ready(Err(e));
+        }
         let mut n = self.net.borrow_mut();
-        match n.incoming_bidi.pop_front() { Some(id) => { let s = n.streams[&id].clone(); drop(n); Poll::Ready(Ok(SimStream { net: self.net.clone(), s })) } None => Poll::Pending }
+        match n.incoming_bidi.pop_front() {
+            Some(id) => {
+                drop(n);
+                Poll::Ready(Ok(SimStream { net: self.net.clone(), id }))
+            }
+            None => {
+                n.accept_bidi_waker = Some(cx.waker().clone());
+                Poll::Pending
+            }
+        }
     }
-    fn opener(&self) -> SimOpen { SimOpen { net: self.net.clone() } }
+    fn opener(&self) -> SimOpen {
+        SimOpen { net: self.net.clone() }
+    }
 }
 impl quic::RecvStream for SimStream {
     type Buf = Bytes;
-    fn poll_data(&mut self, _: &mut Context<'_>) -> Poll<Result<Option<Bytes>, StreamErrorIncoming>> {
-        if let Some(e) = conn_err(&self.net) { return Poll::Ready(Err(StreamErrorIncoming::ConnectionErrorIncoming { connection_error: e })); }
-        let mut s = self.s.borrow_mut();
+    fn poll_data(&mut self, cx: &mut Context<'_>) -> Poll<Result<Option<Bytes>, StreamErrorIncoming>> {
+        if let Some(e) = conn_err(&self.net) {
+            return Poll::Ready(Err(StreamErrorIncoming::ConnectionErrorIncoming { connection_error: e }));
+        }
+        let mut n = self.net.borrow_mut();
+        let s = n.streams.get_mut(&self.id).expect("stream");
         if let Some(d) = s.rx_done.clone() {
-            return Poll::Ready(match d { Rx::Fin => Ok(None), Rx::Reset(c) => Err(StreamErrorIncoming::StreamTerminated { error_code: c }), _ => unreachable!() });
+            return Poll::Ready(match d {
+                Rx::Fin => Ok(None),
+                Rx::Reset(c) => Err(StreamErrorIncoming::StreamTerminated { error_code: c }),
+                _ => unreachable!(),
+            });
         }
         match s.rx.pop_front() {
-            None => Poll::Pending,
+            None => {
+                s.rx_waker = Some(cx.waker().clone());
+                Poll::Pending
+            }
             Some(Rx::Chunk(b)) => Poll::Ready(Ok(Some(b))),
-            Some(Rx::Fin) => { s.rx_done = Some(Rx::Fin); Poll::Ready(Ok(None)) }
-            Some(Rx::Reset(c)) => { s.rx_done = Some(Rx::Reset(c)); Poll::Ready(Err(StreamErrorIncoming::StreamTerminated { error_code: c })) }
+            Some(Rx::Fin) => {
+                s.rx_done = Some(Rx::Fin);
+                Poll::Ready(Ok(None))
+            }
+            Some(Rx::Reset(c)) => {
+                s.rx_done = Some(Rx::Reset(c));
+                s.rx.clear();
+                Poll::Ready(Err(StreamErrorIncoming::StreamTerminated { error_code: c }))
+            }
         }
     }
-    fn stop_sending(&mut self, code: u64) { self.s.borrow_mut().stop_sending.get_or_insert(code); }
-    fn recv_id(&self) -> StreamId { StreamId::try_from(self.s.borrow().id).unwrap() }
+    fn stop_sending(&mut self, code: u64) {
+        let mut n = self.net.borrow_mut();
+        let s = n.streams.get_mut(&self.id).expect("stream");
+        s.stop_sending.get_or_insert(code);
+        s.stop_sending_calls += 1;
+    }
+    fn recv_id(&self) -> StreamId {
+        StreamId::try_from(self.id).unwrap()
+    }
 }
 impl quic::SendStream<Bytes> for SimStream {
-    fn poll_ready(&mut self, _: &mut Context<'_>) -> Poll<Result<(), StreamErrorIncoming>> {
-        if let Some(e) = conn_err(&self.net) { return Poll::Ready(Err(StreamErrorIncoming::ConnectionErrorIncoming { connection_error: e })); }
-        let mut s = self.s.borrow_mut();
-        if let Some(c) = s.peer_stopped { return Poll::Ready(Err(StreamErrorIncoming::StreamTerminated { error_code: c })); }
-        let s = &mut *s;
+    fn poll_ready(&mut self, cx: &mut Context<'_>) -> Poll<Result<(), StreamErrorIncoming>> {
+        if let Some(e) = conn_err(&self.net) {
+            return Poll::Ready(Err(StreamErrorIncoming::ConnectionErrorIncoming { connection_error: e }));
+        }
+        let mut n = self.net.borrow_mut();
+        let s = n.streams.get_mut(&self.id).expect("stream");
+        if let Some(c) = s.peer_stopped {
+            s.writing = None;
+            return Poll::Ready(Err(StreamErrorIncoming::StreamTerminated { error_code: c }));
+        }
         if let Some(w) = s.writing.as_mut() {
             while w.has_remaining() {
-                if s.tx_credit == 0 { return Poll::Pending; }
+                if s.tx_credit == 0 {
+                    s.tx_waker = Some(cx.waker().clone());
+                    return Poll::Pending;
+                }
                 let c = w.chunk();
                 let k = c.len().min(s.tx_credit);
+                if s.tx_fin || s.tx_reset.is_some() {
+                    s.tx_misuse = true;
+                }
                 s.tx.extend_from_slice(&c[..k]);
-                if s.tx_credit != usize::MAX { s.tx_credit -= k; }
+                s.accepted.push(k);
+                if s.tx_credit != UNLIMITED {
+                    s.tx_credit -= k;
+                }
                 w.advance(k);
             }
         }
@@ -143,20 +353,41 @@ impl quic::SendStream<Bytes> for SimStream {
         Poll::Ready(Ok(()))
     }
     fn send_data<T: Into<WriteBuf<Bytes>>>(&mut self, data: T) -> Result<(), StreamErrorIncoming> {
-        let mut s = self.s.borrow_mut();
+        let mut n = self.net.borrow_mut();
+        let s = n.streams.get_mut(&self.id).expect("stream");
         if s.writing.is_some() {
-            return Err(StreamErrorIncoming::ConnectionErrorIncoming { connection_error: ConnectionErrorIncoming::InternalError("send_data while writing".into()) });
+            s.tx_overlap = true;
+            return Err(StreamErrorIncoming::ConnectionErrorIncoming {
+                connection_error: ConnectionErrorIncoming::InternalError("send_data while writing".into()),
+            });
         }
         s.writing = Some(data.into());
         Ok(())
     }
-    fn poll_finish(&mut self, _: &mut Context<'_>) -> Poll<Result<(), StreamErrorIncoming>> { self.s.borrow_mut().tx_fin = true; Poll::Ready(Ok(())) }
-    fn reset(&mut self, code: u64) { self.s.borrow_mut().tx_reset.get_or_insert(code); }
-    fn send_id(&self) -> StreamId { StreamId::try_from(self.s.borrow().id).unwrap() }
+    fn poll_finish(&mut self, _: &mut Context<'_>) -> Poll<Result<(), StreamErrorIncoming>> {
+        if let Some(e) = conn_err(&self.net) {
+            return Poll::Ready(Err(StreamErrorIncoming::ConnectionErrorIncoming { connection_error: e }));
+        }
+        let mut n = self.net.borrow_mut();
+        let s = n.streams.get_mut(&self.id).expect("stream");
+        s.tx_fin = true;
+        Poll::Ready(Ok(()))
+    }
+    fn reset(&mut self, code: u64) {
+        let mut n = self.net.borrow_mut();
+        let s = n.streams.get_mut(&self.id).expect("stream");
+        s.tx_reset.get_or_insert(code);
+    }
+    fn send_id(&self) -> StreamId {
+        StreamId::try_from(self.id).unwrap()
+    }
 }
 impl quic::BidiStream<Bytes> for SimStream {
-    type SendStream = SimStream; type RecvStream = SimStream;
-    fn split(self) -> (SimStream, SimStream) { (SimStream { net: self.net.clone(), s: self.s.clone() }, self) }
+    type SendStream = SimStream;
+    type RecvStream = SimStream;
+    fn split(self) -> (SimStream, SimStream) {
+        (SimStream { net: self.net.clone(), id: self.id }, self)
+    }
 }
 
 // ---------------------------------------------------------------- driving helpers
@@ -164,8 +395,7 @@ impl quic::BidiStream<Bytes> for SimStream {
 use std::future::Future;
 use std::pin::Pin;
 
-/// Poll a boxed future once with a no-op waker (the scripted executor re-polls every task
-/// after every external event, so wake-ups are not needed for progress).
+/// Poll a boxed future once with a no-op waker.
 pub fn poll_once<F: Future + ?Sized>(f: &mut Pin<Box<F>>) -> Poll<F::Output> {
     let w = futures_util::task::noop_waker();
     let mut cx = Context::from_waker(&w);
